@@ -177,6 +177,59 @@ def h_eqpt_attributes(ctx):
               all(mw['operational'][f] == wv[k] for k, f in field.items()), info=dict(info, got=mw.get('operational'), want=wv))
 
 
+def h_route_ila(ctx):
+    """Service row whose route names an in-line amplifier site and then the next named site, on a line A - B(ILA) - [F(FUSED)] -
+    [G(ILA)] - C given as sheets: the ILA name is translated to the amplifier of that site facing the named neighbour (fused
+    sites in between are transparent), in both directions, strict or loose"""
+    import contextlib
+    import io
+    import networkx as nx
+    from harness import c20_ch
+    from gnpy.core.elements import Edfa
+    from gnpy.tools import convert as cv, service_sheet as ss
+    middle = ctx.choice('sites between B and C', ['none', 'fused F', 'fused F + ILA G'])
+    forward = ctx.choice('direction', ['A->C', 'C->A'])
+    strict = ctx.choice('strict', [False, True])
+    chain = ['A', 'B'] + {'none': [], 'fused F': ['F'], 'fused F + ILA G': ['F', 'G']}[middle] + ['C']
+    kinds = {'A': 'ROADM', 'B': 'ILA', 'F': 'FUSED', 'G': 'ILA', 'C': 'ROADM'}
+    rows = {'Nodes': [{'city': c, 'node_type': kinds[c], 'region': 'r', 'latitude': i, 'longitude': i} for i, c in enumerate(chain)],
+            'Links': [{'from_city': a, 'to_city': b, 'east_distance': 50 + 5 * i} for i, (a, b) in enumerate(zip(chain[:-1], chain[1:]))]}
+    src, dst = ('A', 'C') if forward == 'A->C' else ('C', 'A')
+    # (the next in-line or ROADM site has to be named after an in-line site: that is how the direction is chosen)
+    named = (['B'] + (['G'] if 'G' in chain else []) + [dst]) if forward == 'A->C' else ((['G'] if 'G' in chain else []) + ['B', dst])
+    sh = c20_ch._Sheets(rows)
+    sh.install()
+    try:
+        with contextlib.redirect_stdout(io.StringIO()):
+            data = cv.xls_to_json_data('in-memory.xlsx')
+            network = c20_ch._network_from_json(data, c20_ch._EQPT)
+            req = ss.Request(request_id='1', source=src, destination=dst, trx_type='Voyager', mode='mode 1', spacing=50, power=0,
+                             nb_channel=10, nodes_list=' | '.join(named), is_loose='no' if strict else 'yes', path_bandwidth=100)
+            el = ss.Request_element(req, c20_ch._EQPT, False)
+            try:
+                out = ss.correct_xls_route_list('in-memory.xlsx', network, [el])
+                err = None
+            except Exception as e:      # noqa
+                out, err = None, f'{type(e).__name__}: {e}'
+    finally:
+        sh.restore()
+    info = dict(chain=chain, direction=forward, named=named, strict=strict)
+    ctx.prove('a route naming existing sites in path order is accepted', err is None, info=dict(info, error=err))
+    if err is not None:
+        return
+    by = {n.uid: n for n in network.nodes()}
+    path = nx.shortest_path(network, by[f'roadm {src}'], by[f'roadm {dst}'])
+    want = []
+    for name in named:
+        if name == dst:
+            want.append(f'roadm {dst}')
+        else:
+            amps = [n.uid for n in path if isinstance(n, Edfa) and f'edfa in {name}' in n.uid]
+            want += amps[:1]
+    ctx.prove('every named in-line site is kept as its amplifier on the way to the next named site; the end site as its ROADM',
+              out[0].nodes_list == want, info=dict(info, got=out[0].nodes_list, want=want))
+
+
 def setup():
     import logging
     logging.disable(logging.CRITICAL)
@@ -190,5 +243,6 @@ def jobs(tier):
               for i, t in enumerate(('ROADM', 'ILA', 'FUSED'))]
     extra += [dict(name='H20:link_attributes_per_direction', kind='symx', fn='h_link_attributes', witness_every=10, budget_s=200, cost=30),
               dict(name='H20:eqpt_attributes_per_direction', kind='symx', fn='h_eqpt_attributes', witness_every=20, budget_s=200, cost=40)]
+    extra += [dict(name='H20:route_through_inline_sites', kind='symx', fn='h_route_ila', witness_every=4, budget_s=200, cost=30)]
     return extra + [dict(name=f'CH20:{f}', kind='crosshair', fn='run_crosshair', target=f, ch_module='harness.c20_ch', per_condition_timeout=tmo,
                  per_path_timeout=10, budget_s=tmo * 3 + 120, cost=tmo) for f in FUNCS]
